@@ -1,4 +1,5 @@
 import ElfiVerif.Proofs.Rejection
+import ElfiVerif.Proofs.Budget
 
 /-!
 # C01 — rejection ABC returns exactly the best simulated draws, row-consistent
@@ -91,5 +92,19 @@ theorem inf_threshold_stops_early :
       sample sortByKey estExact ⊤ c batch 10 = some r ∧ r.nBatches = 1 ∧
       ∃ s ∈ r.rows, s.origin = none :=
   inf_threshold_stops_early'
+
+/-- **The quantile objective's budget is `ceil(n_samples / quantile)`** (quantile `= p / q`, any positive `p`): the least
+number of simulations `s` with `s · quantile ≥ n_samples`. -/
+theorem quantileBudget_spec (n p q : Nat) (hp : 0 < p) :
+    n * q ≤ quantileBudget n p q * p ∧ quantileBudget n p q * p < n * q + p ∧
+    ∀ k, n * q ≤ k * p → quantileBudget n p q ≤ k :=
+  ⟨(quantileBudget_spec' n p q hp).1, (quantileBudget_spec' n p q hp).2, fun k hk => quantileBudget_least' n p q k hp hk⟩
+
+/-- **… and the batches it stands for are `ceil(budget / batch_size)`** - together with `budget_batches`: a quantile run
+consumes exactly `ceil(ceil(n_samples/quantile) / batch_size)` batches. -/
+theorem quantileBatches_spec (n p q b : Nat) (hb : 0 < b) :
+    quantileBudget n p q ≤ quantileBatches n p q b * b ∧ quantileBatches n p q b * b < quantileBudget n p q + b ∧
+    quantileBatches n p q b = (quantileBudget n p q + b - 1) / b :=
+  ⟨(quantileBatches_spec' n p q b hb).1, (quantileBatches_spec' n p q b hb).2, rfl⟩
 
 end ElfiVerif.Rejection
